@@ -1036,7 +1036,22 @@ async fn builder_order_case(seed: u64) -> (Evidence, Vec<Violation>) {
 		names.push(name);
 	}
 	let log = Log::default();
-	let mut env = Env::with_cfg(b.build(), log);
+	let cfg = b.build();
+	let mut env = Env::with_cfg(cfg.clone(), log.clone());
+	// half of the time the per-connection service builder is touched after the configuration went in: its own setters
+	// (connection limit, connection id, middleware) must leave the limits alone as well
+	if r.bool() {
+		use jsonrpsee_server::middleware::rpc::RpcServiceBuilder as Rsb;
+		let tb = jsonrpsee_server::Server::builder().set_config(cfg.clone()).to_service_builder();
+		let tb = match r.below(4) {
+			0 => tb.max_connections(10_000),
+			1 => tb.connection_id(7).max_connections(5_000),
+			2 => tb.max_connections(10_000).set_rpc_middleware(Rsb::new()),
+			_ => tb.set_http_middleware(tower::ServiceBuilder::new()).max_connections(10_000),
+		};
+		env.srv = MemServer::with_builder(tb, handlers::echo_module(log.clone()));
+		names.push("tower-service-builder-setters");
+	}
 	let l = req as usize;
 	for size in [l - 1, l, l + 1, 2 * l] {
 		for shape in [Shape::EchoStr, Shape::U64Ws] {
@@ -1761,6 +1776,10 @@ fn main() {
 			(32 << 20, 17 << 20, Entry::WsConnect),
 			(1 << 20, (17 << 20) + 1, Entry::WsConnect),
 			(32 << 20, (33 << 20) + 5, Entry::TowerWs),
+			// the default limit itself (10 MiB): one byte more is turned down, exactly the limit is processed
+			(10 << 20, (10 << 20) + 1, Entry::TowerWs),
+			(10 << 20, 10 << 20, Entry::TowerWs),
+			(10 << 20, (10 << 20) + 1, Entry::WsConnect),
 		];
 		let seed = ctx.seed;
 		let res = run_parallel(cases, |i, (req, size, entry)| {
